@@ -214,6 +214,10 @@ func (m *cacheModel) isLockOp(in ssa.Instruction) (op string, ok bool) {
 			if fa, ok := c.Args[0].(*ssa.FieldAddr); ok {
 				_, f := fieldVarOf(fa)
 				if sameField(f, m.mu) {
+					if al, isLocal := fa.X.(*ssa.Alloc); isLocal && !al.Heap || isLocalCopy(fa.X) {
+						// the mutex of a COPY of the cache (value receiver, local variable): excludes nobody
+						return name + " on a copy of the cache", true
+					}
 					if _, isDefer := in.(*ssa.Defer); isDefer {
 						return "defer " + name, true
 					}
@@ -383,7 +387,7 @@ func (m *cacheModel) analyseLocks(fn *ssa.Function, entryLocked bool) *fnLockRes
 
 func runC09(c *Ctx) {
 	P := c.P
-	c.Explanation = "Lock-discipline proof for cache.Cache: a flow-sensitive must-lockset analysis over the go/ssa CFG of every function of package cache that touches guarded Cache state shows that every access to {store,size,limit,count}, every Store-interface call and every callback call happens while c.μ is held (R-LOCK-HELD); each method is exactly one critical section opened first thing and closed by a deferred Unlock (R-LOCK-WHOLE); no function outside those sections touches guarded state (R-LOCK-WHO); no call made under the lock can re-acquire it (R-LOCK-REENTRY); callback fields and limit are written only at construction (R-SETONCE); the package starts no goroutines and uses no channels (R-NO-GO); lruStore state is reachable only through the Store interface from Cache methods (R-STORE-PRIVATE). Together: all conflicting accesses are ordered by the mutex (no data race) and every concurrent history is equivalent to the sequential history in lock-acquisition order (linearizable w.r.t. the sequential behaviour of C08). Does NOT decide the sequential behaviour itself, nor liveness."
+	c.Explanation = "Lock-discipline proof for cache.Cache: a flow-sensitive must-lockset analysis over the go/ssa CFG of every function of package cache that touches guarded Cache state shows that every access to {store,size,limit,count}, every Store-interface call and every callback call happens while c.μ is held (R-LOCK-HELD); each method is exactly one critical section opened first thing and closed by a deferred Unlock (R-LOCK-WHOLE); no function outside those sections touches guarded state (R-LOCK-WHO); no call made under the lock can re-acquire it (R-LOCK-REENTRY); callback fields and limit are written only at construction (R-SETONCE); the package starts no goroutines and uses no channels (R-NO-GO); lruStore state is reachable only through the Store interface from Cache methods (R-STORE-PRIVATE). Together: all conflicting accesses are ordered by the mutex (no data race) and every concurrent history is equivalent to the sequential history in lock-acquisition order (linearizable w.r.t. the sequential behaviour of C08). Lock operations on a by-value copy of the cache are reported as not being operations on the shared mutex. Does NOT decide the sequential behaviour itself, nor liveness."
 	c.assume("user callbacks (sizeOf, onEvict) do not call back into the same Cache (they would self-deadlock, visibly)")
 	c.assume("a Store is not shared between caches (documented contract of the Store interface)")
 	c.assume("cached values are not mutated by their owners after Put")
@@ -914,4 +918,24 @@ func mapVals(m map[*types.Var]string) []string {
 	}
 	sortStrings(out)
 	return out
+}
+
+// isLocalCopy: v is the address of a local variable holding a Cache by value (e.g. the spilled value receiver).
+func isLocalCopy(v ssa.Value) bool {
+	al, ok := v.(*ssa.Alloc)
+	if !ok {
+		return false
+	}
+	// a local that receives a whole struct value by store (not a fresh composite literal being built field by field)
+	for _, r := range referrersOf(al) {
+		if st, ok := r.(*ssa.Store); ok && st.Addr == ssa.Value(al) {
+			if _, isParam := st.Val.(*ssa.Parameter); isParam {
+				return true
+			}
+			if u, ok := st.Val.(*ssa.UnOp); ok && u.Op == token.MUL {
+				return true
+			}
+		}
+	}
+	return false
 }
